@@ -225,6 +225,7 @@ type sideT struct {
 }
 
 type stepEv struct {
+	Irq  bool     `json:"irq"`
 	Tag  string   `json:"tag"`
 	Seed int      `json:"seed"`
 	Ov   [][2]int `json:"ov"`
@@ -302,6 +303,9 @@ func randArch(r *rand.Rand, mode string) Arch {
 		PC: pick16(r), P: r.Intn(256)}
 	if r.Intn(3) != 0 {
 		a.PC = 0x200 + r.Intn(0xFC00)
+	}
+	if mode == "irq" {
+		mode = "any"
 	}
 	if mode != "dec" && mode != "any" {
 		a.P &^= 0x08 // binary mode
@@ -385,6 +389,14 @@ func (p *cpuPair) single(r *rand.Rand, op byte, mode string, w *json.Encoder) {
 	loadPri(p.pri, a, r, all)
 	loadAlt(p.alt, a, r, all)
 	ev := stepEv{Tag: mode, Seed: int(p.seed), Ov: p.ov(), Pre: projPri(p.pri)}
+	if mode == "irq" {
+		// interrupts enabled and an IRQ raised on both interpreters before the step
+		p.pri.I, p.alt.I = 0, 0
+		ev.Pre = projPri(p.pri)
+		p.pri.TriggerIRQ()
+		p.alt.TriggerIRQ()
+		ev.Irq = true
+	}
 	ev.Pri = p.stepPri()
 	ev.Alt = p.stepAlt()
 	w.Encode(&ev)
